@@ -4,6 +4,7 @@ import HtpModel.Prim.Ring
 import HtpModel.Prim.Table
 import HtpModel.Prim.Bstr
 import HtpModel.Prim.Num
+import HtpModel.Conn.Parsers
 
 namespace Driver
 open Htp
@@ -215,6 +216,9 @@ def numOp : List String → String
     | none => "bad-op"
   | ["chunked", a] => match bytesOfHex a with
     | some x => let (r, e) := Num.parseChunkedLength x; s!"{r} {boolInt e}"
+    | none => "bad-op"
+  | ["status", a] => match bytesOfHex a with
+    | some x => toString (Htp.Parse.parseStatus x)
     | none => "bad-op"
   | ["port", a] => match bytesOfHex a with
     | some x => let (p, i) := Num.parsePort x; s!"{p} {boolInt i}"
